@@ -4,7 +4,10 @@ and the Gallina term of the tree."""
 from c10_lib import coq_str
 
 SCALAR = "xwbhsdq"
-SHIFT_OPS = ["lsl", "lsr", "asr", "ror", "sxtw", "uxtw", "uxtb"]
+SHIFT_OPS = ["lsl", "lsr", "asr", "ror", "sxtw", "uxtw", "uxtb"]          # + "sxtx" with the repair cfg["sxtx"]
+ALL_SHIFT_OPS = SHIFT_OPS + ["sxtx"]
+NO_FIX = dict(word=False, cond=False, sxtx=False, dir=False)               # the parser as found
+ALL_FIX = dict(word=True, cond=True, sxtx=True, dir=True)
 CONDS = ["eq", "ne", "cs", "hs", "cc", "lo", "mi", "pl", "vs", "vc", "hi", "ls", "ge", "lt", "gt", "le", "al"]
 SP_WORDS = ["sp", "SP", "wsp", "wSP", "Wsp", "WSP", "xsp", "xSP", "Xsp", "XSP"]
 ZR_WORDS = ["wzr", "wZR", "Wzr", "WZR", "xzr", "xZR", "Xzr", "XZR"]
@@ -103,13 +106,19 @@ class Op:
     def __init__(s, kind, toks, den, coq, **kw):
         s.kind, s.toks, s.den, s.coq = kind, toks, den, coq
         s.swallows = kw.get("swallows", False)
-        s.shiftlike = kw.get("shiftlike", False)
+        s.shiftword = kw.get("shiftword", None)     # the word of an un-hashed identifier / condition code
         s.sxtx = kw.get("sxtx", False)
 
 
-def has_shift_prefix(w):
+def has_shift_prefix(w, cfg=None):
+    """mirror of SyntaxA64.has_shift_prefix; without cfg: under some configuration (the widest reading)"""
     lw = w.lower()
-    return any(lw.startswith(o) for o in SHIFT_OPS) or lw == "mul"
+    if cfg is None:
+        return any(lw.startswith(o) for o in ALL_SHIFT_OPS) or lw == "mul"
+    ops = SHIFT_OPS + (["sxtx"] if cfg["sxtx"] else [])
+    if cfg["word"]:
+        return lw in ops or lw == "mul"
+    return any(lw.startswith(o) for o in ops) or lw == "mul"
 
 
 def gen_ident(rng, shifty=False):
@@ -118,7 +127,7 @@ def gen_ident(rng, shifty=False):
     while True:
         r = rng.random()
         if shifty:
-            w = rng.choice(SHIFT_OPS) + rng.choice(["_loop", "1", ".L2", "x", "_", "Loop9"])
+            w = rng.choice(ALL_SHIFT_OPS) + rng.choice(["_loop", "1", ".L2", "x", "_", "Loop9"])
             if rng.random() < 0.3:
                 w = w.upper()
         elif r < 0.3:
@@ -225,7 +234,7 @@ def gen_identop(rng, shifty=False):
     h = (not shifty) and rng.random() < 0.1
     w = gen_ident(rng, shifty)
     return Op("ident", ([P("#")] if h else []) + [W(w)], ["L:" + w], "(WIdent %s %s)" % (cb(h), coq_str(w)),
-              swallows=True, shiftlike=(not h) and has_shift_prefix(w))
+              swallows=True, shiftword=None if h else w)
 
 
 def gen_cond(rng):
@@ -234,7 +243,7 @@ def gen_cond(rng):
         w = w.upper()
     elif rng.random() < 0.1:
         w = w[0].upper() + w[1]
-    return Op("cond", [W(w)], ["C:" + w.upper()], "(WCond %s)" % coq_str(w), swallows=True)
+    return Op("cond", [W(w)], ["C:" + w.upper()], "(WCond %s)" % coq_str(w), swallows=True, shiftword=w)
 
 
 def gen_mem(rng, full):
@@ -324,7 +333,9 @@ class Line:
     """kind, toks, expected canonical string, coq term, wf under the partial / full predicate, tags"""
 
 
-def gen_line(rng, full=False, kind=None):
+def gen_line(rng, full=False, kind=None, cfg=NO_FIX):
+    """full: draw from the whole language of the property (wline_okb fx_all); partial_ok: the line is in the
+    sub-language of configuration cfg (wline_okb cfg) -- the tags name the defect that excludes it"""
     L = Line()
     k = kind or rng.choice(["instr"] * 14 + ["label", "directive", "comment"])
     L.kind = k
@@ -342,8 +353,9 @@ def gen_line(rng, full=False, kind=None):
         L.toks = toks + ([("C", c)] if c is not None else [])
         L.expected = "m=S%s|l=N|d=N|o=%s|c=%s" % (mn, ";".join(den), "N" if c is None else "S" + comment_text(c))
         L.coq = "(WLInstr %s [%s] %s)" % (coq_str(mn), "; ".join(o.coq for o in ops), copt(c, coq_str))
-        swallow = any(ops[i].swallows and ops[i + 1].shiftlike for i in range(len(ops) - 1))
-        sxtx = any(o.sxtx for o in ops)
+        swallow = any(ops[i].swallows and ops[i + 1].shiftword is not None and has_shift_prefix(ops[i + 1].shiftword, cfg)
+                      for i in range(len(ops) - 1))
+        sxtx = any(o.sxtx for o in ops) and not cfg["sxtx"]
         if swallow:
             L.tags.add("label-with-shift-prefix-after-operand")
         if sxtx:
@@ -373,7 +385,7 @@ def gen_line(rng, full=False, kind=None):
         L.expected = "m=N|l=N|d=S%s|o=|c=N" % n
         L.coq = "(WLDirective %s [%s] %s)" % (coq_str(n), "; ".join(coq_str(p) for p in ps), copt(c, coq_str))
         L.partial_ok, L.opkinds = True, []
-        if c is not None and "," in c and ps and (ps[-1][0].isalpha() or ps[-1][0] == "."):
+        if c is not None and "," in c and ps and (ps[-1][0].isalpha() or ps[-1][0] == ".") and not cfg["dir"]:
             L.tags.add("directive-comment-with-comma")
             L.partial_ok = False
     else:
